@@ -206,6 +206,12 @@ pub struct Sk {
     /// capacity set aside before the run, so that the sink itself never reallocates (heap measurements)
     #[serde(default)]
     pub reserve: usize,
+    /// the k-th write call (0-based) accepts nothing: returns Ok(0)
+    #[serde(default)]
+    pub zero_write_at: Option<usize>,
+    /// kind of the injected write / flush failure: 0 = Other, 2 = WouldBlock, 3 = TimedOut
+    #[serde(default)]
+    pub fail_kind: u8,
     /// the sink implements write_vectored itself: one call may accept bytes from several buffers (up to `chunk` / the
     /// next cut), like a socket or a file does; without it the default (first non-empty buffer only) applies
     #[serde(default)]
@@ -213,7 +219,7 @@ pub struct Sk {
 }
 impl Sk {
     pub fn is_plain(&self) -> bool {
-        self.chunk == 0 && self.cuts.is_empty() && self.fail_write_at.is_none() && self.fail_flush_at.is_none() && self.reserve == 0 && !self.vectored
+        self.chunk == 0 && self.cuts.is_empty() && self.fail_write_at.is_none() && self.fail_flush_at.is_none() && self.reserve == 0 && !self.vectored && self.zero_write_at.is_none()
     }
 }
 #[derive(Default, Debug)]
@@ -255,7 +261,16 @@ impl Write for TestSink {
         }
         if self.spec.fail_write_at == Some(k) {
             s.fault_hit = true;
-            return Err(io::Error::new(io::ErrorKind::Other, "injected write fault"));
+            let kind = match self.spec.fail_kind {
+                2 => io::ErrorKind::WouldBlock,
+                3 => io::ErrorKind::TimedOut,
+                _ => io::ErrorKind::Other,
+            };
+            return Err(io::Error::new(kind, "injected write fault"));
+        }
+        if self.spec.zero_write_at == Some(k) && !buf.is_empty() {
+            s.fault_hit = true;
+            return Ok(0);
         }
         let mut n = buf.len();
         if self.spec.chunk > 0 {
@@ -302,6 +317,9 @@ pub enum SOp {
     Finish,
     /// io::Write::write_all as implemented for (or inherited by) Stream - the method callers and io::copy use
     StdWriteAll(Hex),
+    /// the slices are offered through io::Write::write_vectored until everything is consumed (or a call returns Ok(0) / Err);
+    /// n = bytes consumed
+    WriteVectoredAll(Vec<Hex>),
 }
 #[derive(Clone, Debug, PartialEq, Eq, Hash, Serialize, Deserialize)]
 pub enum RawOp {
@@ -310,6 +328,10 @@ pub enum RawOp {
     Reset,
     /// reset(Some(size))
     ResetSize(Option<u64>),
+    /// decompress from a source that hands over at most `1` bytes per refill (period), instead of one slice
+    DecCut(Hex, usize),
+    /// decompress into a sink whose k-th write call (0-based) fails with ErrorKind::Other
+    DecFail(Hex, usize),
 }
 #[derive(Clone, Debug, PartialEq, Eq, Hash, Serialize, Deserialize)]
 pub enum WOp {
@@ -565,6 +587,35 @@ impl StreamH {
                 let (v, _) = guard(|| s.write_all(&d.0));
                 (v, None)
             }
+            SOp::WriteVectoredAll(parts) => {
+                let s = self.s.as_mut().expect("stream already finished");
+                let total: usize = parts.iter().map(|p| p.0.len()).sum();
+                let mut done = 0usize;
+                let mut v = V::Ok;
+                while done < total {
+                    // the not yet consumed remainder, as slices
+                    let mut skip = done;
+                    let mut slices: Vec<io::IoSlice> = Vec::new();
+                    for p in parts {
+                        if skip >= p.0.len() {
+                            skip -= p.0.len();
+                        } else {
+                            slices.push(io::IoSlice::new(&p.0[skip..]));
+                            skip = 0;
+                        }
+                    }
+                    let (vv, n) = guard(|| s.write_vectored(&slices));
+                    match (vv, n) {
+                        (V::Ok, Some(0)) => break,
+                        (V::Ok, Some(n)) => done += n,
+                        (vv, _) => {
+                            v = vv;
+                            break;
+                        }
+                    }
+                }
+                (v, Some(done as u64))
+            }
             SOp::GetOutput => {
                 let s = self.s.as_mut().expect("stream already finished");
                 // get_output and get_output_mut must agree; Debug formatting must not panic in any state
@@ -644,6 +695,26 @@ impl RawH {
                     RawH::L(x) => guard(|| x.decompress(&mut rdr, &mut out)),
                     RawH::L2(x) => guard(|| x.decompress(&mut rdr, &mut out)),
                 };
+                RawOut { v, out, consumed: d.0.len() - rdr.len() }
+            }
+            RawOp::DecCut(d, period) => {
+                let mut out = Vec::new();
+                let mut cr = CutReader::new(&d.0, &Rd { period: *period, ..Rd::default() });
+                let (v, _) = match self {
+                    RawH::L(x) => guard(|| x.decompress(&mut cr, &mut out)),
+                    RawH::L2(x) => guard(|| x.decompress(&mut cr, &mut out)),
+                };
+                let consumed = cr.pos;
+                RawOut { v, out, consumed }
+            }
+            RawOp::DecFail(d, k) => {
+                let mut sink = TestSink::new(&Sk { fail_write_at: Some(*k), ..Sk::default() });
+                let mut rdr: &[u8] = &d.0;
+                let (v, _) = match self {
+                    RawH::L(x) => guard(|| x.decompress(&mut rdr, &mut sink)),
+                    RawH::L2(x) => guard(|| x.decompress(&mut rdr, &mut sink)),
+                };
+                let out = sink.st.borrow().data.clone();
                 RawOut { v, out, consumed: d.0.len() - rdr.len() }
             }
             RawOp::Reset => {
